@@ -169,7 +169,7 @@ fn c05f_roa_delta_empty_rem() { roa_delta::<false, true, 0, false>(); }
 #[kani::stub(crate::api::roa::RoaPayload::held_by, stub_held_by)]
 fn c05f_roa_delta_have_rem() { roa_delta::<true, true, 0, false>(); }
 
-// vk: timeout=1500; flags=--no-assertion-reach-checks --no-memory-safety-checks; bound=1 existing authorisation, delta = 1 addition, no comments (same payload = duplicate); every payload an arbitrary IPv4 prefix with any max length and origin, held = one arbitrary IPv4 prefix (RoaPayload::held_by replaced by its specification, shown equivalent by c05b_held_by_v4); model map (harness/kani_map.rs)
+// vk: tier=thorough; timeout=2400; flags=--no-assertion-reach-checks --no-memory-safety-checks; bound=1 existing authorisation, delta = 1 addition, no comments (same payload = duplicate); every payload an arbitrary IPv4 prefix with any max length and origin, held = one arbitrary IPv4 prefix (RoaPayload::held_by replaced by its specification, shown equivalent by c05b_held_by_v4); model map (harness/kani_map.rs)
 #[kani::proof]
 #[kani::unwind(5)]
 #[kani::stub(rpki::repository::x509::Time::now, stub_now)]
@@ -220,7 +220,7 @@ fn c05f_roa_delta_v6_add_refused() {
 /// One addition to an empty configuration: accepted exactly when the maximum
 /// length is valid and the prefix is held; this is the harness that notices a
 /// guard call missing from `process_updates`.
-// vk: timeout=1200; flags=--no-assertion-reach-checks --no-memory-safety-checks; bound=empty configuration, delta = 1 addition without comment; payload an arbitrary IPv4 prefix with any max length and origin, held = one arbitrary IPv4 prefix (RoaPayload::held_by replaced by its specification, shown equivalent by c05b_held_by_v4); model map (harness/kani_map.rs)
+// vk: tier=thorough; timeout=1200; flags=--no-assertion-reach-checks --no-memory-safety-checks; bound=empty configuration, delta = 1 addition without comment; payload an arbitrary IPv4 prefix with any max length and origin, held = one arbitrary IPv4 prefix (RoaPayload::held_by replaced by its specification, shown equivalent by c05b_held_by_v4); model map (harness/kani_map.rs)
 #[kani::proof]
 #[kani::unwind(5)]
 #[kani::stub(rpki::repository::x509::Time::now, stub_now)]
